@@ -7,6 +7,7 @@ LEAN_TARGETS = ["Eliot.Properties.C02"]
 AUDIT = "Eliot/Audit/C02.lean"
 THEOREMS = ["Sys.C02.inv_preserved", "Sys.C02.reachable_inv", "Sys.C02.positions_contiguous", "Sys.C02.levels_unique",
             "Sys.C02.actions_unique", "Sys.C02.child_extends_parent", "Sys.C02.reserved_position_unique", "Sys.C02.message_at_slot"]
+GENERATED_OBLIGATIONS = ["Sys.C02.skeleton_E6_order"]
 RULE = ("programs of the core language (no failing field serializers, as the property states) with 2-4 destinations and failure masks on "
         "all but one of them; (a) structured batch (with-blocks, tasks, try/except, tracebacks, extractors that raise, remote continuation "
         "of every reserved id) checked for uniqueness, contiguity 1..n, start at 1, end at n, emission order = level order on the healthy "
@@ -102,7 +103,7 @@ def oracle_structured(ctx, case, view, reserved=frozenset()):
                 return
             # a position reserved by serialize_task_id is filled in by the remote side whenever it runs
             remote = {lvl[len(L)] for lvl, i, m in msgs if len(lvl) == len(L) + 2 and tuple(lvl[:len(L)]) == L
-                      and lvl[-1] == 1 and m.get("action_type") == "eliot:remote_task"}
+                      and lvl[-1] == 1 and str(m.get("action_type", "")).startswith("eliot:remote_task")}
             order = [pos[k] for k in ks if k not in remote and pos[k] >= 0]
             if order != sorted(order):
                 ctx.violation("inside action %s%s emission order differs from level order" % (u, list(L)), case)
